@@ -112,7 +112,14 @@ def gen_scenario(rng, idx):
         else:
             at = rng.choice([0, 1, 349, 350, 351, 500, 575, 576, 700, 800, 801, 1000, 2000]) + rng.choice([0, 0, rng.randint(0, 50)])
             svc = rng.randrange(nsvc)
-        ops.append({"op": mode, "svc": svc, "at": at})
+        op = {"op": mode, "svc": svc, "at": at}
+        # which object the API call is given: the registered one, an equal-but-distinct ServiceInfo built from the same
+        # arguments, or (after an update through another object) the stale handle from before the update
+        if mode == "unregister":
+            op["via"] = rng.choice(["same", "same", "same", "copy", "copy", "stale"])
+        elif mode == "update":
+            op["via"] = rng.choice(["same", "same", "copy"])
+        ops.append(op)
     if rng.random() < 0.5:
         ops.append({"op": "close", "svc": 0, "at": horizon + rng.choice([0, 100, 700])})
     return {"idx": idx, "svcs": svcs, "ops": ops, "seed": rng.randrange(1 << 30),
@@ -276,9 +283,23 @@ def run_scenario(sc):
         za = a.zc
         await za.async_wait_for_start()
         infos = []
+        first = []  # the handle each service was first registered with (stale once an update went through another object)
+
+        def build(i):
+            s = sc["svcs"][i]
+            return c09.make_info({"type": s["type"], "inst": s["inst"], "port": s["port"], "text": s["text"], "server": s["server"],
+                                  "host_ttl": s["host_ttl"], "other_ttl": s["other_ttl"], "v4": s["v4"], "v6": s["v6"]})
+
+        def handle(i, via):
+            if via == "copy":
+                return build(i)
+            if via == "stale":
+                return first[i] if first[i] is not infos[i] else build(i)
+            return infos[i]
         for s in sc["svcs"]:
             infos.append(c09.make_info({"type": s["type"], "inst": s["inst"], "port": s["port"], "text": s["text"], "server": s["server"],
                                         "host_ttl": s["host_ttl"], "other_ttl": s["other_ttl"], "v4": s["v4"], "v6": s["v6"]}))
+        first.extend(infos)
         errors = []
         nq = [0]
         closed = [False]
@@ -303,9 +324,11 @@ def run_scenario(sc):
                         await sim.sleep_ms(op["delay"])
                     a.inject(data, "10.0.0.9", 40000 if op["kind"] == "legacy" else 5353)
                 elif k == "unregister":
-                    await za.async_unregister_service(infos[op["svc"]])
+                    await za.async_unregister_service(handle(op["svc"], op.get("via", "same")))
                 elif k == "update":
-                    await za.async_update_service(infos[op["svc"]])
+                    h = handle(op["svc"], op.get("via", "same"))
+                    await za.async_update_service(h)
+                    infos[op["svc"]] = h
                 elif k == "unregister_all":
                     await za.async_unregister_all_services()
                 elif k == "close":
